@@ -254,6 +254,8 @@ def build(ctx):
              num_fn=lambda S, k: (T2(S) * k).exp().A, sampler=lambda rng: [rev2(rng), th_main(rng)], tol=1e-10)
     g.ptrace('tr_T2_invexp_rev', [('S', 'V3'), ('th', 'S')], lambda S, th: base.trexp2(T2(S).inv().S * th), [S3, 0.7],
              num_fn=lambda S, th: T2(S).inv().exp(th).A, sampler=lambda rng: [rev2(rng), th_main(rng)], tol=1e-10)
+    g.ptrace('tr_trexp2_se2_rev', [('S', 'V3')], lambda S: base.trexp2(T2(S).se2()), [S3],
+             num_fn=lambda S: base.trexp2(T2(S).se2()), sampler=lambda rng: [rev2(rng) * th_main(rng)], tol=1e-10)
     return g
 
 
